@@ -84,6 +84,11 @@ META = {
   "text": "Pre-states cover every relation between the two caches named by the property; each transfer is cut after every message in turn and the follower restarted, and whatever the follower then claims to hold under the leader's id is read back completely and compared with the leader's history. Exploration + enumeration of the interruption point.",
   "note": "The harness decides that a session has quiesced by watching the follower's right edge / message counter (bounded waits); it does not own goroutine scheduling inside the pair.",
  },
+ "C18": {
+  "technique": "property-based testing (rapid) over source streams with adversarial hash-tag arrangements against a slot-checking cluster double; oracle = reference slot function and reference key table over every transaction received and over the source units (refuse / replay-exactly verdict)",
+  "text": "The slot function and the key positions the verdicts use are the harness' own (bitwise CRC16, table transcribed from the command reference), so a disagreement between the tool's routing and Redis Cluster shows as a transaction spanning slots, a refused single-slot unit or an unrefused multi-slot one. Requests are judged as received (queued or executed), so a partially sent unit is seen even when the node rejects it.",
+  "note": "Exploration level: inputs are sampled; the snapshot (RDB) path builds one unit per key and is outside this check.",
+ },
  "C19": {
   "technique": "property-based testing (rapid) over cluster layouts, streams and migration schedules against a specification-enforcing cluster double; oracle = per-key rewind-only order and no-silent-loss over the cluster-wide execution history",
   "text": "Migration events are tied to the cluster-wide request counter so that they land between and inside batches; per-node latencies let several batches be in flight when a redirection is answered. The double refuses to execute anywhere but at the entitled node, which turns 'lost' and 'reordered' into observable history facts. Exploration level (the Go scheduler inside the cluster client is not owned).",
